@@ -36,8 +36,10 @@ type authz struct {
 	// errOnce: the FIRST post-fetch decision about a denied coordinate fails hard
 	// (the policy service is briefly unavailable); later ones deny
 	errOnce bool
-	mu      sync.Mutex
-	erred   map[string]bool
+	// errOn: post-fetch decisions about these coordinates ALWAYS fail hard
+	errOn map[string]bool
+	mu    sync.Mutex
+	erred map[string]bool
 }
 
 func (a *authz) decide(c resolve.GraphCoordinate) *resolve.AuthorizationDeny {
@@ -50,6 +52,9 @@ func (a *authz) AuthorizePreFetch(ctx *resolve.Context, ds string, in json.RawMe
 	return a.decide(c), nil
 }
 func (a *authz) AuthorizeObjectField(ctx *resolve.Context, ds string, obj json.RawMessage, c resolve.GraphCoordinate) (*resolve.AuthorizationDeny, error) {
+	if a.errOn[c.TypeName+"."+c.FieldName] {
+		return nil, errors.New("policy service unavailable")
+	}
 	if k := c.TypeName + "." + c.FieldName; a.errOnce && a.deny[k] {
 		a.mu.Lock()
 		first := !a.erred[k]
@@ -618,6 +623,10 @@ func TestCheck(t *testing.T) {
 		Deny       []string `json:"deny"`
 		Mode       string   `json:"mode"`
 		Op         string   `json:"op"`
+		// aborting-frame cases
+		Aborting    bool   `json:"aborting"`
+		First       string `json:"first"`
+		FirstDenied bool   `json:"first_denied"`
 	}
 	var rin *replayIn
 	if run.Replay != "" {
@@ -748,6 +757,141 @@ func TestCheck(t *testing.T) {
 								run.Violate(vk.Violation{Clause: fl.clause, Site: fl.site, Class: mode + " / " + involved(fl.site+" "+firstLines(fl.detail, 1), dl),
 									Detail: fmt.Sprintf("layout %s\noperation %s\nprotected %v\ndeny %v\nmode %s\n%s", l.String(), q, prot, dl, mode, fl.detail),
 									Input:  map[string]any{"family": f.name, "layout": l.OwnerVector(), "n": l.N, "layout_name": l.Name, "protected": prot, "deny": dl, "mode": mode, "op": q}})
+							}
+						}
+					}
+				}
+				lab.Close()
+			}
+		}
+	}
+	if rin == nil {
+		abortingFrames(t, run, nil)
+	} else if rin.Aborting {
+		abortingFrames(t, run, &abortReplay{rin.Layout, rin.Op, rin.Mode, rin.First, rin.FirstDenied})
+	}
+}
+
+// abortingFrames: a frame whose validation walk ABORTS before it reaches a denied
+// object field (an earlier sibling is a denied non-null root field that bubbles
+// to the root, or its decision fails hard), with a nested @defer mounted below
+// that object: the nested frame reaches the denied field only as a pass-through
+// field. Nothing selected below the denied coordinate may appear in any frame.
+// Generated: first sibling x denied object field with a nested @defer x outer
+// fragment deferred or not x mode.
+type abortReplay struct {
+	layout      []int
+	op, mode    string
+	first       string
+	firstDenied bool
+}
+
+func abortingFrames(t *testing.T, run *vk.Run, rp *abortReplay) {
+	if rp == nil && run.Shard() != 0 {
+		return
+	}
+	type first struct {
+		sel   string
+		prot  string
+		deny  bool // denied (non-null: the null bubbles up) or failing hard
+		label string
+	}
+	firsts := []first{
+		{`users { id }`, "Query.users", true, "denied non-null root field"},
+		{`users { id }`, "Query.users", false, "root field whose decision fails hard"},
+		{`me { name }`, "User.name", false, "nested field whose decision fails hard"},
+		{`me { name }`, "User.name", true, "denied non-null nested field"},
+	}
+	type second struct {
+		sel       string
+		prot      string
+		forbidden []string
+	}
+	seconds := []second{
+		{`topProducts { upc ... @defer { title } }`, "Query.topProducts", []string{`"title"`, `"upc"`}},
+		{`topProducts { upc ... @defer { reviews { body } } }`, "Query.topProducts", []string{`"body"`, `"upc"`}},
+		{`user(id: "u3") { id ... @defer { nick } }`, "Query.user", []string{`"nick"`}},
+		{`user(id: "u3") { id ... @defer { favorite { ... @defer { title } } } }`, "Query.user", []string{`"title"`, `"favorite"`}},
+	}
+	var f *family
+	for _, x := range families(run) {
+		if x.name == "S-core" {
+			f = x
+		}
+	}
+	for _, l := range f.layouts {
+		for _, a1 := range firsts {
+			for _, a2 := range seconds {
+				fcs := plan.FieldConfigurations{}
+				for _, c := range []string{a1.prot, a2.prot} {
+					parts := strings.SplitN(c, ".", 2)
+					fcs = append(fcs, plan.FieldConfiguration{TypeName: parts[0], FieldName: parts[1], HasAuthorizationRule: true})
+				}
+				lab, err := fedlab.NewLab(fedlab.NewLayout(f.s, l.N, l.OwnerVector(), l.Name), f.u, fedlab.LabOptions{Fields: fcs})
+				if err != nil {
+					t.Fatalf("lab: %v", err)
+				}
+				for _, q := range []string{
+					"{ ... @defer { " + a1.sel + " " + a2.sel + " } }",
+					"{ " + a1.sel + " " + a2.sel + " }",
+					"{ ... @defer { " + a2.sel + " " + a1.sel + " } }",
+				} {
+					for _, mode := range []string{"post", "both", "pre"} {
+						if rp != nil && (fmt.Sprint(rp.layout) != fmt.Sprint(l.OwnerVector()) || rp.op != q || rp.mode != mode || rp.first != a1.prot || rp.firstDenied != a1.deny) {
+							continue
+						}
+						az := &authz{deny: map[string]bool{a2.prot: true}}
+						if a1.deny {
+							az.deny[a1.prot] = true
+						} else {
+							az.errOn = map[string]bool{a1.prot: true}
+						}
+						run.Eval(1)
+						run.Count("aborting_frame_cases", 1)
+						ctx, cancel := context.WithTimeout(context.Background(), 30*time.Second)
+						w, _, _ := lab.ExecStream(ctx, q, "", nil, authOptions(az, mode)...)
+						cancel()
+						all := strings.Join(w.Frames, "\n") + strings.Join(w.Errors, "\n")
+						// only the DATA of the frames is searched (a pending entry may name the
+						// path of a fragment below the denied field; that is not a value)
+						var datas []string
+						for _, fr := range w.Frames {
+							var m map[string]any
+							if json.Unmarshal([]byte(fr), &m) != nil {
+								datas = append(datas, fr) // not JSON: search all of it
+								continue
+							}
+							if d, ok := m["data"]; ok {
+								b, _ := json.Marshal(d)
+								datas = append(datas, string(b))
+							}
+							incs, _ := m["incremental"].([]any)
+							for _, inc := range incs {
+								if im, ok := inc.(map[string]any); ok {
+									b, _ := json.Marshal(im["data"])
+									datas = append(datas, string(b))
+									if it, ok := im["items"]; ok {
+										b, _ := json.Marshal(it)
+										datas = append(datas, string(b))
+									}
+								}
+							}
+						}
+						data := strings.Join(datas, "\n")
+						if rp != nil {
+							fmt.Printf("operation %s\nmode %s, denied %s, %s %s\n%s\n", q, mode, a2.prot, a1.label, a1.prot, all)
+						}
+						if run.Outcome("abort|" + q + "|" + mode + "|" + a1.label + "|" + fmt.Sprint(len(w.Frames))) {
+							run.Sample("S-core/aborting-frame/"+mode, map[string]any{"layout": l.String(), "operation": q, "deny": a2.prot, "first": a1.label + " " + a1.prot, "frames": len(w.Frames)})
+						}
+						for _, fb := range a2.forbidden {
+							if strings.Contains(data, fb) {
+								run.Violate(vk.Violation{Clause: "a response never contains a non-null value at a position whose field coordinate was denied (incremental payload)",
+									Site:   "data below a denied object field in a frame of a deferred operation",
+									Class:  mode + " / " + a1.label + " before the denied object field",
+									Detail: fmt.Sprintf("layout %s\noperation %s\ndenied %s, %s: %s\nmode %s\n%s found in\n%s", l.String(), q, a2.prot, a1.label, a1.prot, mode, fb, all),
+									Input:  map[string]any{"family": "S-core", "aborting": true, "layout": l.OwnerVector(), "n": l.N, "op": q, "mode": mode, "deny": []string{a2.prot}, "first": a1.prot, "first_denied": a1.deny}})
+								break
 							}
 						}
 					}
